@@ -182,6 +182,7 @@ class _SmbTrace:
         self.objs: list = []
         self.logs: list[list] = []
         self.builds: list[dict] = []
+        self.built: list = []
         self.saved: list = []
 
     def idx(self, b: Any) -> int:
@@ -215,6 +216,14 @@ class _SmbTrace:
         wrap("next_macro_opcode_called_in", lambda if_incl_rel_path, line_number, column: ["ci", if_incl_rel_path, line_number, column])
         wrap("add_macro_opcode", lambda op_offset, if_incl_rel_path, macro_name, line_number, column: ["mop", op_offset, if_incl_rel_path, macro_name, line_number, column])
         wrap("add_macro_position_mark", lambda if_incl_rel_path, macro_name, position_mark: ["mpm", if_incl_rel_path, macro_name, position_mark.serialize()])
+        orig_smb_build = B.build
+        self.saved.append((B, "build", orig_smb_build))
+
+        def smb_build(self):  # type: ignore
+            sm = orig_smb_build(self)
+            tr.built.append((sm, tr.idx(self)))     # (the object is kept so that its identity stays unique)
+            return sm
+        B.build = smb_build
         M = mmod.ExplorerScriptMacro
         orig_build = M.build
         self.saved.append((M, "build", orig_build))
@@ -238,7 +247,7 @@ class _SmbTrace:
                    "macro": {"name": self.name, "relpath": self.included__relative_path, "params": _pairs({x: str(y) for x, y in parameters.items()}),
                              "pos_direct": [p.serialize() for p in self.source_map.get_position_marks__direct()],
                              "pos_macros": [[y[0], y[1], y[2].serialize()] for y in self.source_map.get_position_marks__macros()]},
-                   "same_tables": self.source_map.get_position_marks__macros() is smb._pos_marks_macros}
+                   "same_tables": self.source_map.get_position_marks__macros() is smb._pos_marks_macros}   # aliasing (hang) indicator
             tr.builds.append(rec)
             out = orig_build(self, op_idx_counter, lbl_idx_counter, parameters, smb)
             rec["end"] = len(tr.logs[bi])
@@ -259,7 +268,8 @@ class _SmbTrace:
         routine = None
         for i, b in enumerate(self.objs):
             finals.append(json.loads(SourceMap(b._mappings, b._pos_marks, b._mappings_macros, b._pos_marks_macros).serialize()))
-            if final_sm is not None and b._mappings is final_sm._mappings:
+        for sm, i in self.built:
+            if sm is final_sm:
                 routine = i
         return {"logs": self.logs, "builds": self.builds, "finals": finals, "routine_builder": routine}
 
